@@ -456,7 +456,7 @@ func runC07(c *core.Ctx) {
 	} else {
 		c.SetDeadline(5 * 60e9)
 	}
-	c.SetRule("BFS over connection/logon/logout/reset event sequences on a real session for each (reset-flag combination, role, BeginString, initial counters); reference counter model compared after every event; file-store variant adds engine restarts; ResetSeqTime configurations add the event "the daily reset time passes between two ticks of the run loop"")
+	c.SetRule("BFS over connection/logon/logout/reset event sequences on a real session for each (reset-flag combination, role, BeginString, initial counters); reference counter model compared after every event; file-store variant adds engine restarts; ResetSeqTime configurations add the event that the daily reset time passes between two ticks of the run loop")
 	c.Assume("Logon with ResetSeqNumFlag=Y and MsgSeqNum != 1 is outside the statement's domain", "absolute state keys (initial counters are part of the configuration)",
 		"Logout timeout without reply is not judged")
 	cfgs := c07Configs(c.Quick())
